@@ -3,6 +3,9 @@
 #include "gen.h"
 
 #include <algorithm>
+#include <cctype>
+#include <cstdio>
+#include <cstdlib>
 #include <cmath>
 #include <sstream>
 
@@ -90,6 +93,40 @@ namespace sim
         }
     }
 
+  namespace
+  {
+    // the same document with one number changed: a world that differs from its sibling in one parameter
+    std::string perturb_one_number(const std::string &json, Rng &rng)
+    {
+      std::vector<std::pair<size_t, size_t>> tokens;
+      bool in_string = false;
+      for (size_t i = 0; i < json.size(); ++i)
+        {
+          const char c = json[i];
+          if (c == '"' && (i == 0 || json[i - 1] != '\\'))
+            in_string = !in_string;
+          if (in_string)
+            continue;
+          if ((std::isdigit(static_cast<unsigned char>(c)) || c == '-') && i > 0 && (json[i - 1] == ':' || json[i - 1] == '[' || json[i - 1] == ',' || json[i - 1] == ' '))
+            {
+              size_t j = i + 1;
+              while (j < json.size() && (std::isdigit(static_cast<unsigned char>(json[j])) || json[j] == '.' || json[j] == 'e' || json[j] == 'E' || json[j] == '+' || json[j] == '-'))
+                ++j;
+              tokens.emplace_back(i, j - i);
+              i = j - 1;
+            }
+        }
+      if (tokens.empty())
+        return json;
+      const auto t = tokens[rng.below(tokens.size())];
+      const double v = std::strtod(json.substr(t.first, t.second).c_str(), nullptr);
+      static const double f[] = {0.5, 0.75, 1.25, 1.5, 2.0};
+      char buf[48];
+      std::snprintf(buf, sizeof(buf), "%.17g", v == 0 ? 1.0 : v * f[rng.below(5)]);
+      return json.substr(0, t.first) + buf + json.substr(t.first + t.second);
+    }
+  }
+
   bool gen_c01(uint64_t seed, uint64_t run, const std::string &tier, Scenario &s)
   {
     const uint64_t rs = hash_mix(seed, run);
@@ -121,10 +158,22 @@ namespace sim
           }
         else
           w = cat[ok[rng.below(ok.size())]];
-        w.name = "/simfs/w" + std::to_string(i) + "_" + w.name;
+        if (i > 0 && rng.chance(0.3))
+          {
+            // a sibling of the first file that differs in one number (stale state keyed by anything but the
+            // world itself would carry answers from one to the other)
+            w = analyse_world(infos[0].name.substr(infos[0].name.find_last_of('/') + 1), perturb_one_number(infos[0].content, rng));
+            if (!w.parse_ok)
+              w = infos[0];
+            w.edge_world = false;
+            s.generator += "+sibling";
+          }
+        w.name = "/simfs/w" + std::to_string(i) + "_" + w.name.substr(w.name.find_last_of('_') == std::string::npos ? 0 : 0);
         infos.push_back(w);
         s.files[w.name] = w.content;
       }
+    ProbePoint last_point;
+    bool have_last_point = false;
     const bool alloc_faults = frng.chance(0.2);
     const int nslots = static_cast<int>(rng.range(1, 4));
     std::vector<Slot> slots(static_cast<size_t>(nslots));
@@ -192,7 +241,14 @@ namespace sim
         else
           {
             Op op;
+            if (have_last_point && slot.used.empty() && rng.chance(0.6))
+              slot.used.push_back(last_point); // the first question to a new world: the last point asked of any world
             fill_query(op, *slot.w, slot, rng, true, true);
+            if (!slot.used.empty())
+              {
+                last_point = slot.used.back();
+                have_last_point = true;
+              }
             op.h = h;
             if (alloc_faults && frng.chance(0.08))
               op.alloc_fail = frng.range(1, 30);
@@ -809,6 +865,24 @@ namespace sim
     };
     for (auto &p : pairs)
       create_pair(p);
+    if (rng.chance(0.3))
+      {
+        // a second native/wrapped pair created with exactly the arguments of the first one: two handles made
+        // alike are still two worlds (own random engine, own copy of the file)
+        Pair q = pairs[0];
+        q.hn = 2 * static_cast<int>(pairs.size());
+        q.hw = q.hn + 1;
+        const size_t first_create = 0;
+        Op n2 = s.ops[first_create], w2 = s.ops[first_create + 1];
+        n2.h = q.hn;
+        w2.h = q.hw;
+        n2.eq = w2.eq = "create" + std::to_string(eqn++);
+        s.ops.push_back(n2);
+        s.ops.push_back(w2);
+        q.alive = true;
+        pairs.push_back(q);
+        s.generator = "c16+same-args";
+      }
     if (rng.chance(0.15) && pairs[0].kind == "c" && !pairs[0].w.random)
       {
         // concurrent clients of one C handle next to a client of the native twin: the wrapper must stay
